@@ -111,8 +111,18 @@ def converter_dict_subclasses(ctx):
     ctx.ob("TAB.convert.dict-isinstance", f, "convert_legacy_task: `isinstance(a, dict)` selects the Dict(...) conversion of an argument", ok, "" if ok else "a dict subclass argument is passed through unconverted: the task no longer depends on the keys in its values, starts before they exist and receives the literal key strings")
 
 
+def converter_unhashable(ctx):
+    """EXC.convert.unhashable-falls-through (C08, C01): a task that cannot be hashed is not a key, but it may still
+    CONTAIN keys: the TypeError handler of the key probe must fall through to the container conversion."""
+    f = ctx.model.module("dask/_task_spec.py").func("convert_legacy_task")
+    hs = [h for t in ast.walk(f) if isinstance(t, ast.Try) for h in t.handlers if h.type is not None and eqv(h.type, "TypeError")]
+    ok = len(hs) == 1 and len(hs[0].body) == 1 and isinstance(hs[0].body[0], ast.Pass)
+    ctx.ob("EXC.convert.unhashable-falls-through", f, "`except TypeError: pass` -- an unhashable tuple/list continues to the element-wise conversion", ok, "" if ok else "a tuple holding an unhashable literal is returned verbatim: keys and nested tasks inside it are never substituted")
+
+
 def check(ctx):
     converter_dict_subclasses(ctx)
+    converter_unhashable(ctx)
     model = ctx.model
     ts = model.module(TS)
     core = model.module(CORE)
